@@ -30,11 +30,17 @@ Qed.
 
 Lemma c_encodebits_bytes : forall b n v, Forall byte_ok (cb_bytes b) -> Forall byte_ok (cb_bytes (c_encodebits b n v)).
 Proof.
-  intros b n v H. unfold c_encodebits. pose proof (enc_loop_bytes 10 n v b H) as L.
+  intros b n v H. unfold c_encodebits, c_enc_tail. pose proof (enc_loop_bytes 10 n v b H) as L.
   destruct (c_enc_loop 10 n v b) as [nb b1]. cbn [snd] in L.
   destruct (0 <? nb); [|exact L]. destruct (8 <=? cb_lastbits b1 + nb); cbn [cb_bytes]; [|exact L].
   apply Forall_app. split; [exact L|]. constructor; [apply u8_byte|constructor].
 Qed.
+
+Lemma c_enc_loop_small : forall fuel nb v b, nb < 8 -> c_enc_loop (S fuel) nb v b = (nb, b).
+Proof. intros fuel nb v b H. cbn [c_enc_loop]. destruct (Z.leb_spec 8 nb); [lia|reflexivity]. Qed.
+
+Lemma c_encodebits_small : forall b nb v, nb < 8 -> c_encodebits b nb v = c_enc_tail b nb v.
+Proof. intros b nb v H. unfold c_encodebits. change 10%nat with (S 9). now rewrite c_enc_loop_small. Qed.
 
 Lemma c_encodebits_good : forall b n v, wgood b -> 0 <= n <= 32 -> 0 <= v < 2 ^ n ->
   wgood (c_encodebits b n v) /\ wbits (c_encodebits b n v) = wbits b ++ bits_of (Z.to_nat n) v.
@@ -66,13 +72,11 @@ Proof.
   intros b n [Hok HB] Hn. split; [split; [|now apply c_encodebits_bytes]|].
   - unfold c_encodebits. pose proof (enc_loop_zero 10 b n Hok ltac:(lia)) as L.
     destruct (c_enc_loop 10 n 0 b) as [nb b1] eqn:E. destruct L as (Hnb & _ & Hok1 & _).
-    assert (c_encodebits b1 nb 0 = (if 0 <? nb then _ else b1)) as <-.
-    { unfold c_encodebits. cbn [c_enc_loop]. destruct (Z.leb_spec 8 nb); [lia|reflexivity]. }
+    rewrite <- c_encodebits_small by lia.
     apply (c_encodebits_spec b1 nb 0 Hok1); [lia|]. split; [lia|apply Z.pow_pos_nonneg; lia].
   - unfold c_encodebits. pose proof (enc_loop_zero 10 b n Hok ltac:(lia)) as L.
     destruct (c_enc_loop 10 n 0 b) as [nb b1] eqn:E. destruct L as (Hnb & _ & Hok1 & Hbits).
-    assert (c_encodebits b1 nb 0 = (if 0 <? nb then _ else b1)) as <-.
-    { unfold c_encodebits. cbn [c_enc_loop]. destruct (Z.leb_spec 8 nb); [lia|reflexivity]. }
+    rewrite <- c_encodebits_small by lia.
     destruct (c_encodebits_spec b1 nb 0 Hok1 ltac:(lia)) as [_ S]; [split; [lia|apply Z.pow_pos_nonneg; lia]|].
     rewrite S, bits_of_zero. exact Hbits.
 Qed.
@@ -115,7 +119,8 @@ Proof.
     destruct F as [|F]; [lia|]. cbn [le_bits].
     split; [repeat constructor; unfold byte_ok; lia|]. split; [discriminate|]. split.
     + intros H8. cbn [map concat]. rewrite app_nil_r. destruct (Z.leb_spec nbits 8).
-      * assert (nbits = 8) as -> by lia. cbn. now rewrite app_nil_r.
+      * assert (nbits = 8) as -> by lia. change (Z.to_nat (8 - 8 * 1)) with 0%nat. change (Z.to_nat 8) with 8%nat.
+        cbn [repeat]. now rewrite app_nil_r.
       * rewrite Z.shiftr_div_pow2 by lia. change (2 ^ 8) with 256. rewrite Z.div_small by lia.
         rewrite le_bits_zero by lia. reflexivity.
     + intros H8. cbn [removelast last map concat app]. destruct (Z.leb_spec nbits 8); [|lia].
@@ -125,7 +130,8 @@ Proof.
       cbn [length]. change (Z.of_nat 1) with 1. destruct F as [|F]; [lia|]. cbn [le_bits].
       split; [repeat constructor; unfold byte_ok; lia|]. split; [discriminate|]. split.
       * intros H8. cbn [map concat]. rewrite app_nil_r. destruct (Z.leb_spec nbits 8).
-        -- assert (nbits = 8) as -> by lia. cbn. now rewrite app_nil_r.
+        -- assert (nbits = 8) as -> by lia. change (Z.to_nat (8 - 8 * 1)) with 0%nat. change (Z.to_nat 8) with 8%nat.
+        cbn [repeat]. now rewrite app_nil_r.
         -- rewrite Z.shiftr_div_pow2 by lia. change (2 ^ 8) with 256. rewrite Z.div_small by lia.
            rewrite le_bits_zero by lia. reflexivity.
       * intros H8. cbn [removelast last map concat app]. destruct (Z.leb_spec nbits 8); [|lia].
@@ -181,3 +187,292 @@ Proof.
     destruct (c_encodebits_good (c_send_bytes b (removelast ds)) (nbits - 8 * (k - 1)) (last ds 0) G1 ltac:(lia) J2) as [G2 B2].
     split; [exact G2|]. rewrite B2, B1, J3. now rewrite <- app_assoc.
 Qed.
+
+(* ------------------------------------------------------------------ absolute coordinates and flags *)
+Lemma c_put_abs_spec : forall mn mx c b, in_box mn mx c -> span_ok mn mx -> wgood b ->
+  wgood (c_put_abs (mk_absfmt mn mx) c b) /\
+  wbits (c_put_abs (mk_absfmt mn mx) c b) = wbits b ++ put_abs (mk_absfmt mn mx) c.
+Proof.
+  intros [[m0 m1] m2] [[x0 x1] x2] [[c0 c1] c2] b [Hlo Hhi] Hs Hg. cbn in Hlo, Hhi, Hs.
+  unfold mk_absfmt. cbn [tsub tlist map].
+  set (s0 := x0 - m0 + 1). set (s1 := x1 - m1 + 1). set (s2 := x2 - m2 + 1).
+  destruct (existsb (fun s : Z => 16777215 <? s) [s0; s1; s2]) eqn:E.
+  - unfold c_put_abs, put_abs. cbn [af_bitsize af_bits af_min af_sizes tsub map].
+    change (0 =? 0) with true. cbv iota.
+    destruct (sizeofint_spec s0 ltac:(subst s0; lia)) as [A0 B0].
+    destruct (sizeofint_spec s1 ltac:(subst s1; lia)) as [A1 B1].
+    destruct (sizeofint_spec s2 ltac:(subst s2; lia)) as [A2 B2].
+    destruct (c_encodebits_good b (sizeofint s0) (c0 - m0) Hg B0 ltac:(subst s0; lia)) as [G0 E0].
+    destruct (c_encodebits_good _ (sizeofint s1) (c1 - m1) G0 B1 ltac:(subst s1; lia)) as [G1 E1].
+    destruct (c_encodebits_good _ (sizeofint s2) (c2 - m2) G1 B2 ltac:(subst s2; lia)) as [G2 E2].
+    split; [exact G2|]. rewrite E2, E1, E0. now rewrite <- !app_assoc.
+  - cbn [existsb] in E. rewrite !orb_false_r in E. rewrite !orb_false_iff in E. destruct E as (E0 & E1 & E2).
+    unfold c_put_abs, put_abs. cbn [af_bitsize af_bits af_min af_sizes tsub].
+    assert (0 < prod [s0; s1; s2] < 2 ^ 72) as P.
+    { rewrite prod3.
+      assert (0 < s0 <= 16777215) by (subst s0; lia). assert (0 < s1 <= 16777215) by (subst s1; lia).
+      assert (0 < s2 <= 16777215) by (subst s2; lia).
+      split; [apply Z.mul_pos_pos; [apply Z.mul_pos_pos|]; lia|].
+      replace (2 ^ 72) with 4722366482869645213696 by reflexivity.
+      assert (s0 * s1 <= 16777215 * 16777215) by (apply Z.mul_le_mono_nonneg; lia).
+      assert (s0 * s1 * s2 <= 16777215 * 16777215 * 16777215) by (apply Z.mul_le_mono_nonneg; try lia; apply Z.mul_nonneg_nonneg; lia).
+      lia. }
+    assert (0 < sizeofints [s0; s1; s2] <= 72) as SZ.
+    { unfold sizeofints. split; [apply bitlen_pos; lia|apply bitlen_le; lia]. }
+    destruct (Z.eqb_spec (sizeofints [s0; s1; s2]) 0) as [Z0|_]; [lia|].
+    assert (in_sizes [s0; s1; s2] [c0 - m0; c1 - m1; c2 - m2]) as IS by (repeat constructor; subst s0 s1 s2; lia).
+    pose proof (sizeofints_sufficient _ _ IS) as SF.
+    apply c_encodeints_spec; [assumption|lia|exact SF].
+Qed.
+
+Lemma c_enc_flags_spec : forall prevrun run is b, wgood b -> 0 <= run + is + 1 < 32 ->
+  wgood (c_enc_flags prevrun run is b) /\ wbits (c_enc_flags prevrun run is b) = wbits b ++ enc_flags prevrun run is.
+Proof.
+  intros prevrun run is b Hg Hv. unfold c_enc_flags, enc_flags.
+  destruct (negb (run =? prevrun) || negb (is =? 0)).
+  - destruct (c_encodebits_good b 1 1 Hg ltac:(lia) ltac:(cbn; lia)) as [G1 E1].
+    destruct (c_encodebits_good _ 5 (run + is + 1) G1 ltac:(lia) ltac:(change (2 ^ 5) with 32; lia)) as [G2 E2].
+    split; [exact G2|]. rewrite E2, E1. now rewrite <- app_assoc.
+  - destruct (c_encodebits_good b 1 0 Hg ltac:(lia) ltac:(cbn; lia)) as [G1 E1]. split; [exact G1|exact E1].
+Qed.
+
+(* ------------------------------------------------------------------ one group *)
+Definition small_ok (m : Z) (d : list Z) : Prop :=
+  exists a b c, d = [a; b; c] /\ 0 <= a < m /\ 0 <= b < m /\ 0 <= c < m.
+
+Lemma delta_small_ok : forall idx a prev, xtc_firstidx <= idx < lastidx -> close (magic idx / 2) a prev ->
+  small_ok (magic idx) (delta (magic idx / 2) a prev).
+Proof.
+  intros idx [[a0 a1] a2] [[p0 p1] p2] Hidx Hc. destruct (magic_cube idx Hidx) as [_ Hpos].
+  unfold close, all_lt, tsub in Hc. rewrite !andb_true_iff in Hc. destruct Hc as [[H0 H1] H2].
+  unfold delta. cbn [tsub tlist map]. set (m := magic idx) in *.
+  assert (2 * (m / 2) <= m) by (pose proof (Z.mul_div_le m 2 ltac:(lia)); lia).
+  eexists _, _, _. split; [reflexivity|]. lia.
+Qed.
+
+Lemma deltas_small_ok : forall idx atoms prev, xtc_firstidx <= idx < lastidx -> chain (magic idx / 2) prev atoms ->
+  Forall (small_ok (magic idx)) (deltas_of (magic idx / 2) prev atoms).
+Proof.
+  intros idx atoms. induction atoms as [|a atoms IH]; intros prev Hidx Hch; cbn [deltas_of]; [constructor|].
+  destruct Hch as [Hc Hch]. constructor; [now apply delta_small_ok|now apply IH].
+Qed.
+
+Lemma enc_group_plan : forall f maxidx minidx larger first st prev cs,
+  enc_group f maxidx minidx larger first st prev cs =
+  match enc_plan maxidx minidx larger first st prev cs with
+  | Some (st', prev', rest, g) => Some (st', prev', rest, emit_bits f g)
+  | None => None
+  end.
+Proof.
+  intros f maxidx minidx larger first st prev cs. unfold enc_group, enc_plan. destruct cs as [|c r]; [reflexivity|].
+  destruct r as [|c2 r2].
+  - reflexivity.
+  - destruct (all_lt (tsub c c2) (es_smallnum st)).
+    + destruct (small_run 8 (es_smallnum st) (es_smaller st) c2 (c :: r2) 0 _ []) as [[[[deltas rest] prev'] run] is]. reflexivity.
+    + reflexivity.
+Qed.
+
+Lemma plan_facts : forall mn mx maxidx minidx larger first st prev cs st' prev' rest g,
+  Forall (in_box mn mx) cs -> xtc_firstidx <= minidx -> maxidx < lastidx -> inv minidx maxidx st ->
+  enc_plan maxidx minidx larger first st prev cs = Some (st', prev', rest, g) ->
+  in_box mn mx (gp_abs g) /\ 0 <= gp_run g + gp_is g + 1 < 32 /\
+  gp_idx g = es_smallidx st /\ xtc_firstidx <= gp_idx g < lastidx /\
+  Forall (small_ok (magic (gp_idx g))) (gp_deltas g) /\
+  Forall (in_box mn mx) rest /\ (length rest < length cs)%nat /\ inv minidx maxidx st'.
+Proof.
+  intros mn mx maxidx minidx larger first st prev cs st' prev' rest g Hbox Hmin Hmax Hinv Hp.
+  destruct cs as [|c r]; [discriminate Hp|]. unfold enc_plan in Hp.
+  set (is0 := if (es_smallidx st <? maxidx) && negb first && all_lt (tsub c prev) larger then 1
+              else if minidx <? es_smallidx st then -1 else 0) in *.
+  assert (-1 <= is0 <= 1 /\ (is0 = 1 -> es_smallidx st < maxidx) /\ (is0 = -1 -> minidx < es_smallidx st)) as (His0 & Hup0 & Hdn0).
+  { subst is0. destruct (Z.ltb_spec (es_smallidx st) maxidx); cbn [andb];
+      [destruct (negb first && all_lt (tsub c prev) larger)|]; try (destruct (Z.ltb_spec minidx (es_smallidx st))); lia. }
+  assert (xtc_firstidx <= es_smallidx st < lastidx) as Hidx by (destruct Hinv; lia).
+  pose proof (inv_num _ _ _ Hinv) as Hnum.
+  inversion Hbox as [|c' r' Hc Hr]; subst c' r'.
+  assert ((exists c2 r2, r = c2 :: r2 /\ all_lt (tsub c c2) (es_smallnum st) = true) \/
+          (match r with c2 :: r2 => if all_lt (tsub c c2) (es_smallnum st) then (c2, c :: r2, true) else (c, r, false)
+                   | [] => (c, r, false) end = (c, r, false))) as [(c2 & r2 & -> & Hclose)|Hns].
+  { destruct r as [|c2 r2]; [right; reflexivity|]. destruct (all_lt (tsub c c2) (es_smallnum st)) eqn:E;
+      [left; exists c2, r2; auto|right; reflexivity]. }
+  - rewrite Hclose in Hp. cbn [negb andb] in Hp.
+    destruct (small_run_spec 8 (es_smallnum st) (es_smaller st) c2 (c :: r2) 0 is0 [] ltac:(lia))
+      as (atoms & rest0 & is' & Hrun & Hcs & Hne & Hch & Hlen & His').
+    { exists c, r2. split; [reflexivity|exact Hclose]. }
+    remember (0 + 3 * Z.of_nat (length atoms)) as runv eqn:Erun.
+    rewrite Hrun in Hp. injection Hp as <- <- <- <-. cbn [gp_abs gp_run gp_is gp_idx gp_deltas gp_prevrun].
+    assert (-1 <= is' <= 1 /\ (is' = 1 -> es_smallidx st < maxidx) /\ (is' = -1 -> minidx < es_smallidx st)) as (Hisr & Hupr & Hdnr)
+      by (destruct His' as [->|[-> ->]]; lia).
+    destruct (update_roundtrip minidx maxidx st is' runv 0 Hmin Hmax Hinv Hisr Hupr Hdnr) as (_ & Hinv' & _ & _).
+    inversion Hr as [|c2' r2' Hc2 Hr2]; subst c2' r2'.
+    split; [exact Hc2|]. split; [lia|]. split; [reflexivity|]. split; [exact Hidx|]. split.
+    { cbn [rev app]. rewrite Hnum in *. now apply deltas_small_ok. }
+    assert (Forall (in_box mn mx) (c :: r2)) as Hcr by (constructor; assumption).
+    rewrite Hcs in Hcr. split; [eapply Forall_app_r; exact Hcr|].
+    split; [|exact Hinv'].
+    assert (length (c :: r2) = (length atoms + length rest0)%nat) as HL by (rewrite Hcs, app_length; reflexivity).
+    assert (1 <= length atoms)%nat by (destruct atoms; [congruence|cbn; lia]). cbn [length] in *. lia.
+  - rewrite Hns in Hp. cbn [negb andb] in Hp. set (is1 := if is0 =? -1 then 0 else is0) in *.
+    injection Hp as <- <- <- <-. cbn [gp_abs gp_run gp_is gp_idx gp_deltas gp_prevrun].
+    assert (-1 <= is1 <= 1 /\ (is1 = 1 -> es_smallidx st < maxidx) /\ (is1 = -1 -> minidx < es_smallidx st)) as (Hisr & Hupr & Hdnr)
+      by (subst is1; destruct (Z.eqb_spec is0 (-1)); lia).
+    destruct (update_roundtrip minidx maxidx st is1 0 0 Hmin Hmax Hinv Hisr Hupr Hdnr) as (_ & Hinv' & _ & _).
+    split; [exact Hc|]. split; [lia|]. split; [reflexivity|]. split; [exact Hidx|]. split; [constructor|].
+    split; [exact Hr|]. split; [cbn [length]; lia|exact Hinv'].
+Qed.
+
+Lemma c_smalls_spec : forall idx deltas b, wgood b -> xtc_firstidx <= idx < lastidx ->
+  Forall (small_ok (magic idx)) deltas ->
+  let m := magic idx in
+  wgood (fold_left (fun b d => c_encodeints b idx [m; m; m] d) deltas b) /\
+  wbits (fold_left (fun b d => c_encodeints b idx [m; m; m] d) deltas b) =
+    wbits b ++ concat (map (encodeints idx [m; m; m]) deltas).
+Proof.
+  intros idx deltas. induction deltas as [|d r IH]; intros b Hg Hidx HF; cbv zeta; cbn [fold_left map concat].
+  - split; [exact Hg|now rewrite app_nil_r].
+  - inversion HF as [|d' r' Hd Hr]; subst d' r'. destruct Hd as (a & b0 & c & -> & Ha & Hb & Hc).
+    destruct (magic_cube idx Hidx) as [Hcube Hpos]. set (m := magic idx) in *.
+    assert (0 < xtc_firstidx) as F by (vm_compute; reflexivity).
+    assert (lastidx <= 72 + 1) as L by (vm_compute; discriminate).
+    assert (0 <= mixed_radix [m; m; m] [a; b0; c] < 2 ^ idx) as HV.
+    { cbn [mixed_radix mixed]. assert (m ^ 3 = m * m * m) as E3 by ring.
+      assert (0 <= (a * m + b0) * m + c < m * m * m) by nia. lia. }
+    destruct (c_encodeints_spec b idx [m; m; m] [a; b0; c] Hg ltac:(lia) HV) as [G1 E1].
+    destruct (IH _ G1 Hidx Hr) as [G2 E2]. cbv zeta in G2, E2. fold m in G2, E2.
+    split; [exact G2|]. rewrite E2, E1. now rewrite <- app_assoc.
+Qed.
+
+Lemma c_emit_spec : forall mn mx g b, span_ok mn mx -> wgood b ->
+  in_box mn mx (gp_abs g) -> 0 <= gp_run g + gp_is g + 1 < 32 -> xtc_firstidx <= gp_idx g < lastidx ->
+  Forall (small_ok (magic (gp_idx g))) (gp_deltas g) ->
+  wgood (c_emit (mk_absfmt mn mx) g b) /\
+  wbits (c_emit (mk_absfmt mn mx) g b) = wbits b ++ emit_bits (mk_absfmt mn mx) g.
+Proof.
+  intros mn mx g b Hs Hg Hbox Hfl Hidx Hd. unfold c_emit, emit_bits.
+  destruct (c_put_abs_spec mn mx (gp_abs g) b Hbox Hs Hg) as [G1 E1].
+  destruct (c_enc_flags_spec (gp_prevrun g) (gp_run g) (gp_is g) _ G1 Hfl) as [G2 E2].
+  destruct (c_smalls_spec (gp_idx g) (gp_deltas g) _ G2 Hidx Hd) as [G3 E3]. cbv zeta in G3, E3.
+  split; [exact G3|]. rewrite E3, E2, E1. now rewrite <- !app_assoc.
+Qed.
+
+(* ------------------------------------------------------------------ the loop, both encoders side by side *)
+Lemma loops_agree : forall fuel mn mx maxidx minidx larger first st prev cs b,
+  span_ok mn mx -> Forall (in_box mn mx) cs -> xtc_firstidx <= minidx -> maxidx < lastidx ->
+  inv minidx maxidx st -> wgood b -> (length cs <= fuel)%nat ->
+  exists bits b',
+    enc_loop fuel (mk_absfmt mn mx) maxidx minidx larger first st prev cs = Some bits /\
+    c_enc_loop_frame fuel (mk_absfmt mn mx) maxidx minidx larger first st prev cs b = Some b' /\
+    wgood b' /\ wbits b' = wbits b ++ bits.
+Proof.
+  induction fuel; intros mn mx maxidx minidx larger first st prev cs b Hs Hbox Hmin Hmax Hinv Hg Hfu.
+  - destruct cs; [|cbn in Hfu; lia]. exists [], b. cbn. repeat split; try apply Hg. now rewrite app_nil_r.
+  - destruct cs as [|c r].
+    + exists [], b. cbn. repeat split; try apply Hg. now rewrite app_nil_r.
+    + cbn [enc_loop c_enc_loop_frame]. rewrite enc_group_plan.
+      destruct (enc_plan maxidx minidx larger first st prev (c :: r)) as [[[[st' prev'] rest] g]|] eqn:Ep.
+      * destruct (plan_facts mn mx _ _ _ _ _ _ _ _ _ _ _ Hbox Hmin Hmax Hinv Ep) as (F1 & F2 & F3 & F4 & F5 & F6 & F7 & F8).
+        destruct (c_emit_spec mn mx g b Hs Hg F1 F2 F4 F5) as [G1 E1].
+        destruct (IHfuel mn mx maxidx minidx larger false st' prev' rest (c_emit (mk_absfmt mn mx) g b) Hs F6 Hmin Hmax F8 G1)
+          as (more & b' & L1 & L2 & L3 & L4); [cbn [length] in *; lia|].
+        exists (emit_bits (mk_absfmt mn mx) g ++ more), b'. rewrite L1, L2. repeat split; try apply L3.
+        rewrite L4, E1. now rewrite <- app_assoc.
+      * exfalso. unfold enc_plan in Ep. destruct r as [|c2 r2]; [discriminate|].
+        destruct (all_lt (tsub c c2) (es_smallnum st)); [|discriminate].
+        destruct (small_run 8 _ _ _ _ _ _ _) as [[[[? ?] ?] ?] ?]. discriminate.
+Qed.
+
+(* ------------------------------------------------------------------ bytes *)
+Lemma byte_bits_inj : forall x y, byte_ok x -> byte_ok y -> byte_bits x = byte_bits y -> x = y.
+Proof.
+  intros x y Hx Hy H. unfold byte_bits in H. apply (f_equal (fun l => val_of l 0)) in H.
+  rewrite !val_of_bits_of in H. change (2 ^ Z.of_nat 8) with 256 in H. rewrite !Z.mod_small in H by assumption. lia.
+Qed.
+
+Lemma app_inj_length : forall {A} (a c b d : list A), length a = length c -> a ++ b = c ++ d -> a = c /\ b = d.
+Proof.
+  induction a as [|x a IH]; intros c b d HL H; destruct c as [|y c]; try discriminate HL.
+  - now split.
+  - cbn [app] in H. injection H as -> H. destruct (IH c b d ltac:(cbn in HL; lia) H) as [-> ->]. now split.
+Qed.
+
+Lemma bytes_to_bits_inj : forall l1 l2, Forall byte_ok l1 -> Forall byte_ok l2 ->
+  bytes_to_bits l1 = bytes_to_bits l2 -> l1 = l2.
+Proof.
+  induction l1 as [|x r IH]; intros l2 H1 H2 H; destruct l2 as [|y s].
+  - reflexivity.
+  - apply (f_equal (@length bool)) in H. cbn [bytes_to_bits map concat length] in H. rewrite app_length in H.
+    unfold byte_bits in H. rewrite bits_of_length in H. lia.
+  - apply (f_equal (@length bool)) in H. cbn [bytes_to_bits map concat length] in H. rewrite app_length in H.
+    unfold byte_bits in H. rewrite bits_of_length in H. lia.
+  - inversion H1; inversion H2; subst. cbn [bytes_to_bits map concat] in H.
+    fold (bytes_to_bits r) (bytes_to_bits s) in H.
+    assert (byte_bits x = byte_bits y /\ bytes_to_bits r = bytes_to_bits s) as [Ex Er].
+    { apply app_inj_length; [|exact H]. unfold byte_bits. now rewrite !bits_of_length. }
+    f_equal; [now apply byte_bits_inj|now apply IH].
+Qed.
+
+Lemma val_of_byte : forall l, length l = 8%nat -> byte_ok (val_of l 0).
+Proof.
+  intros l H. pose proof (val_of_bound l 0 ltac:(lia)) as B. rewrite H in B. change (2 ^ Z.of_nat 8) with 256 in B.
+  unfold byte_ok. lia.
+Qed.
+
+Lemma pack_bits_bytes : forall s, Forall byte_ok (pack_bits s).
+Proof.
+  intros s. unfold pack_bits. generalize (S (length s)). intros fuel. revert s.
+  induction fuel; intros s; cbn [bits_to_bytes]; [constructor|]. destruct s as [|x s']; [constructor|].
+  constructor; [|apply IHfuel]. apply val_of_byte. rewrite firstn_length, app_length, repeat_length. cbn [length]. lia.
+Qed.
+
+Lemma bytes_to_bits_length : forall l, length (bytes_to_bits l) = (8 * length l)%nat.
+Proof.
+  induction l as [|x r IH]; [reflexivity|]. cbn [bytes_to_bits map concat length]. fold (bytes_to_bits r).
+  rewrite app_length, IH. unfold byte_bits. rewrite bits_of_length. lia.
+Qed.
+
+(* The encoder run on the C buffer (encodebits / encodeints calls, final flush) and the abstract encoder produce
+   the same header and the same bytes, for every list of integer triples: [xtc_frame_roundtrip] therefore
+   speaks about the byte string xdrfile's buffer manipulation yields. *)
+Theorem c_xtc_encode_eq : forall cs, c_xtc_encode cs = xtc_encode cs.
+Proof.
+  intros cs. unfold c_xtc_encode, xtc_encode.
+  set (mn := fold_triples tmin cs (0, 0, 0)). set (mx := fold_triples tmax cs (0, 0, 0)).
+  set (smallidx := first_idx 80 xtc_firstidx (mindiff cs)).
+  destruct ((lastidx <=? smallidx + 8) || existsb (fun s : Z => int_max - 2 <=? s) (af_sizes (mk_absfmt mn mx))) eqn:G;
+    [reflexivity|].
+  apply orb_false_iff in G. destruct G as [G1 G2]. apply Z.leb_gt in G1.
+  replace (Z.min lastidx (smallidx + 8)) with (smallidx + 8) by lia.
+  replace (smallidx + 8 - 8) with smallidx by lia.
+  assert (span_ok mn mx) as Hspan.
+  { destruct mn as [[a0 a1] a2], mx as [[b0 b1] b2]. unfold mk_absfmt in G2. cbn [tsub tlist map] in G2.
+    assert (existsb (fun s : Z => int_max - 2 <=? s) [b0 - a0 + 1; b1 - a1 + 1; b2 - a2 + 1] = false) as G3.
+    { destruct (existsb (fun s : Z => 16777215 <? s) [b0 - a0 + 1; b1 - a1 + 1; b2 - a2 + 1]); exact G2. }
+    cbn [existsb] in G3. rewrite !orb_false_r in G3. rewrite !orb_false_iff in G3.
+    unfold int_max in G3. cbn. lia. }
+  pose proof (first_idx_ge 80 xtc_firstidx (mindiff cs)) as Hge. fold smallidx in Hge.
+  assert (wgood (CBuf [] 0 0)) as G0 by (split; [split; cbn; lia|constructor]).
+  destruct (loops_agree (length cs) mn mx (smallidx + 8) smallidx (magic (smallidx + 8) / 2) true
+              (EncSt smallidx (magic (Z.max xtc_firstidx (smallidx - 1)) / 2) (magic smallidx / 2) (-1)) (0, 0, 0) cs (CBuf [] 0 0)
+              Hspan (all_in_box cs (0, 0, 0)) Hge G1)
+    as (bits & b' & L1 & L2 & [Hok HB] & L4); [constructor; cbn [es_smallidx es_smallnum es_smaller]; lia|exact G0|lia|].
+  rewrite L1, L2. f_equal. f_equal.
+  change (wbits (CBuf [] 0 0)) with (@nil bool) in L4. cbn [app] in L4.
+  (* same bits, both padded with fewer than 8 zeros to whole bytes *)
+  pose proof (c_flush_spec b' Hok HB) as F. rewrite L4 in F.
+  destruct (pack_bits_spec bits) as (k2 & Hk2 & P).
+  set (k1 := Z.to_nat ((8 - cb_lastbits b') mod 8)) in *.
+  assert (k1 < 8)%nat as Hk1 by (subst k1; pose proof (Z.mod_pos_bound (8 - cb_lastbits b') 8 ltac:(lia)); lia).
+  assert (k1 = k2) as Ek.
+  { pose proof (f_equal (@length bool) F) as LF. pose proof (f_equal (@length bool) P) as LP.
+    rewrite bytes_to_bits_length, app_length, repeat_length in LF, LP. lia. }
+  apply bytes_to_bits_inj.
+  - unfold c_flush. destruct (cb_lastbits b' =? 0); [exact HB|]. apply Forall_app. split; [exact HB|].
+    constructor; [apply u8_byte|constructor].
+  - apply pack_bits_bytes.
+  - rewrite F, P, Ek. reflexivity.
+Qed.
+
+(* the round trip, stated for the bytes of the C buffer *)
+Corollary xtc_c_buffer_roundtrip : forall cs p, c_xtc_encode cs = Some p ->
+  xtc_decode (Z.of_nat (length cs)) p = Some cs.
+Proof. intros cs p H. rewrite c_xtc_encode_eq in H. now apply xtc_frame_roundtrip. Qed.
